@@ -28,6 +28,7 @@ def tu_text(tier):
     L.append('extern "C" void cv2d_3(const double* i, double* o){ vspline::cv<3,Eigen::Vector2d>(i,o);}')
     L.append('extern "C" void fc_T1(const double* i, double* o){ vspline::fixedcubic<double>(i,o);}')
     L.append('extern "C" void fc_T2(const double* i, double* o){ vspline::fixedcubic<Eigen::Vector2d>(i,o);}')
+    L.append('extern "C" void fc_SE2(const double* i, double* o){ vspline::fixedcubic<smooth::SE2d>(i,o);}')
     for loc in (0, 1):
         L.append('extern "C" void cat_%d(const double* i, double* o){ vspline::concat<3,double,2,2,%s>(i,o);}' % (loc, "true" if loc else "false"))
     return "\n".join(L) + "\n"
@@ -365,6 +366,48 @@ def job_fc(gn, tier):
     return res
 
 
+FC_ROT = [((Fraction(3, 5), Fraction(4, 5)), (Fraction(5, 13), Fraction(12, 13)), Fraction(3, 10), Fraction(-1, 5)),
+          ((Fraction(-4, 5), Fraction(3, 5)), (Fraction(7, 25), Fraction(-24, 25)), Fraction(0), Fraction(1, 2))]
+
+
+def job_fc_se2(cfg, tier):
+    """FixedCubic on a NON-commutative group (SE2) with a non-identity start pose: start/end pose and velocities.  Rotational data
+    (the two rotations as rational (sin, cos) pairs and the angular end velocities) are fixed to stated values, T = 2; all translations and
+    translational velocities are symbolic, so every output is an affine form in them and the end conditions are decided on a box up to the
+    rounding of the transcendental constants."""
+    T.reset_terms()
+    res = check.Result()
+    h = check.Harness("spline12", tu_text(tier))
+    (sa, ca), (sb, cb), wa, wb = FC_ROT[cfg]
+    xa, ya, xb, yb, vax, vay, vbx, vby = [T.Sym(n) for n in ("xa", "ya", "xb", "yb", "vax", "vay", "vbx", "vby")]
+    gb = [xb, yb, T.Const(sb), T.Const(cb)]
+    ga = [xa, ya, T.Const(sa), T.Const(ca)]
+    va = [vax, vay, T.Const(wa)]
+    vb = [vbx, vby, T.Const(wb)]
+    ins = gb + va + vb + [T.Const(2)] + ga
+    fn = "fc_SE2"
+    key = "FixedCubic/SE2/rot%d" % cfg
+
+    def sym_sampler(k):
+        r = random.Random(k)
+        return {n: r.uniform(-2, 2) for n in ("xa", "ya", "xb", "yb", "vax", "vay", "vbx", "vby")}
+    res.functions.add(fn)
+    res.validated += h.validate(fn, lambda k: [float(T.evaluate(x, sym_sampler(k))) for x in ins], 20, 4)
+
+    def obligations(ins_, o):
+        obl = []
+        for c in range(4):
+            obl.append(("start/pose%d" % c, o[c], ga[c]))
+            obl.append(("end/pose%d" % c, o[10 + c], gb[c]))
+        for c in range(3):
+            obl.append(("start/vel%d" % c, o[4 + c], va[c]))
+            obl.append(("end/vel%d" % c, o[14 + c], vb[c]))
+        return obl
+    wrapper_check(res, h, fn, ins, 20, key, obligations, [], sym_sampler, tol=1e-8, sym_box=lambda nm: (Fraction(-4), Fraction(4)))
+    res.bounds.add("FixedCubic on SE2: rotations (sin,cos) and angular velocities fixed to %s, T = 2; translations and translational velocities symbolic in [-4,4]" % (FC_ROT,))
+    return res
+
+
 def job_concat(loc, tier):
     T.reset_terms()
     res = check.Result()
@@ -415,7 +458,7 @@ def main(tier):
     check.run_jobs([(_compile, (tier,))])
     jobs = [(job_eval, ("T1", N, tier)) for N in (1, 2, 3)] + [(job_eval, ("T2", 2, tier))]
     jobs += [(job_crop, (N, loc, tier)) for N in ((1, 2) if tier == "quick" else (1, 2, 3)) for loc in (1, 0)]
-    jobs += [(job_cv, (K, tier)) for K in (1, 2, 3, 4, 5)] + [(job_fc, ("T1", tier)), (job_fc, ("T2", tier))] + [(job_concat, (loc, tier)) for loc in (1, 0)]
+    jobs += [(job_cv, (K, tier)) for K in (1, 2, 3, 4, 5)] + [(job_fc, ("T1", tier)), (job_fc, ("T2", tier)), (job_fc_se2, (0, tier)), (job_fc_se2, (1, tier))] + [(job_concat, (loc, tier)) for loc in (1, 0)]
     run.extend(check.run_jobs(jobs, timeout=1200 if tier == "quick" else 1800))
     run.bounds += ["groups double and Vector2d (exact rational curves); degree 3 for states, K=1..5 for ConstantVelocity; N <= 3 segments (crop N<=2 quick, <=3 thorough)",
                    "arbitrary representation-invariant state per operation (inductive step), all times symbolic"]
